@@ -389,6 +389,12 @@ func (ex *Exec) knownExternal(full string, args []Val, st *State, cur *smt.Term,
 		}
 		ex.recordDepAssume("uniseg widths are >= 0")
 		return r, true
+	case "math.Inf":
+		r := mkRes("inf")
+		big1 := c.RealLit(new(big.Rat).SetFloat64(1e30))
+		ex.assume(c.Ite(c.Ge(args[0].Tm, c.IntLit(0)), c.Gt(r.Tm, big1), c.Lt(r.Tm, c.Neg(big1))))
+		ex.recordDepAssume("math.Inf(1) exceeds every value the function compares it with (modelled as > 1e30)")
+		return r, true
 	case "unicode/utf8.RuneLen":
 		r := mkRes("runelen")
 		ex.assume(c.And(c.Le(c.IntLit(-1), r.Tm), c.Le(r.Tm, c.IntLit(4))))
